@@ -34,6 +34,45 @@ theorem py_exec (r : PyRet) :
     pyExec true r = ⟨.raised, .none, []⟩ := by
   cases r <;> simp [pyExec, classifyPy]
 
+/-- The classification of a python-action and the text its body produces do not depend on the verbosity (on
+    whether a live stream is handed over): the tee `Writer` has the same interface with and without a live stream.
+    The one operation whose result the code makes depend on the live stream is `fileno()` (answered by the live
+    stream; `UnsupportedOperation` without one) -- hence the hypothesis. -/
+theorem classification_verbosity_independent (capture l1 l2 : Bool) (ops : List StreamOp) (ret : PyRet)
+    (h : StreamOp.fileno ∉ ops) :
+    bodyRun capture l1 ops = bodyRun capture l2 ops ∧
+    pyExec false (pyBody capture l1 ops ret) = pyExec false (pyBody capture l2 ops ret) := by
+  have hb : bodyRun capture l1 ops = bodyRun capture l2 ops := by
+    induction ops with
+    | nil => rfl
+    | cons op rest ih =>
+      have hop : op ≠ StreamOp.fileno := fun e => h (by simp [e])
+      have hr : StreamOp.fileno ∉ rest := fun e => h (by simp [e])
+      have he : opEffect capture l1 op = opEffect capture l2 op := by
+        cases op <;> first | rfl | exact absurd rfl hop
+      simp only [bodyRun, he, ih hr]
+  exact ⟨hb, by simp only [pyBody, hb]⟩
+
+/-- with capture on, a body using `writelines`, `.buffer.write` or any other attribute the `Writer` lacks is an
+    error at every verbosity, and the operations after it never run -/
+theorem writer_interface (l : Bool) (pre post : List StreamOp) (op : StreamOp) (ret : PyRet)
+    (hpre : ∀ o ∈ pre, opEffect true l o ≠ .raises)
+    (hop : op = .writelines ∨ op = .bufferWrite ∨ op = .attr) :
+    classifyPy (pyBody true l (pre ++ op :: post) ret) = .error ∧
+    (bodyRun true l (pre ++ op :: post)).1.length = pre.length := by
+  have key : (bodyRun true l (pre ++ op :: post)).2 = true ∧
+      (bodyRun true l (pre ++ op :: post)).1.length = pre.length := by
+    induction pre with
+    | nil => rcases hop with e | e | e <;> subst e <;> simp [bodyRun, opEffect]
+    | cons p pre ih =>
+      have hp := hpre p (by simp)
+      have ih' := ih (fun o ho => hpre o (by simp [ho]))
+      cases hpe : opEffect true l p with
+      | raises => exact absurd hpe hp
+      | text => simp [bodyRun, hpe, ih'.1, ih'.2]
+      | silent => simp [bodyRun, hpe, ih'.1, ih'.2]
+  exact ⟨by simp [pyBody, key.1, classifyPy], key.2⟩
+
 /-- A cmd-action succeeds iff the return code is 0, is an error iff it is above 125, fails for every other
     return code — which includes the negative return codes of a process killed by a signal (the statement is
     silent about those; this is what the code does). -/
